@@ -139,6 +139,9 @@ func Encrypt(dst io.Writer, recipients ...Recipient) (io.WriteCloser, error) {
 		if err != nil {
 			return nil, fmt.Errorf("failed to wrap key for recipient #%d: %v", i, err)
 		}
+		// The slice belongs to the recipient (which may reuse it for the next
+		// call, or share it between recipients): sort and keep a copy.
+		l = append([]string{}, l...)
 		sort.Strings(l)
 		if i == 0 {
 			labels = l
